@@ -144,6 +144,29 @@ def render_lit(L, start, end, size, orphan, overlap, given=None):
     return t(seq=list(range(1, L + 1)))
 
 
+def _form_template(form):
+    """the stand-alone "next" / "previous" forms of the tag: they announce
+    the neighbouring batch and show no elements"""
+    from DocumentTemplate import HTML
+    t = _templates.get('form:' + form)
+    if t is None:
+        t = HTML('<dtml-in seq start=pstart size=psize orphan=porphan '
+                 'overlap=poverlap %s><dtml-var %s-sequence-start-number>,'
+                 '<dtml-var %s-sequence-end-number>,<dtml-var '
+                 '%s-sequence-size><dtml-else>NONE</dtml-in>'
+                 % (form, form, form, form))
+        _templates['form:' + form] = t
+    return t
+
+
+def render_form(form, L, start, size, orphan, overlap):
+    out = _form_template(form)(seq=list(range(1, L + 1)), pstart=start,
+                               psize=size, porphan=orphan, poverlap=overlap)
+    if out == 'NONE':
+        return None
+    return [int(x) for x in out.split(',')]
+
+
 def render_var(L, start, end, size, orphan, overlap, as_str=False):
     c = str if as_str else int
     return _var_template()(seq=list(range(1, L + 1)), pstart=c(start),
@@ -393,6 +416,18 @@ def run_nav(case):
                 return res
             states[(s, e)] = rows
             res.states += 1
+            # the next / previous forms announce what the listing announces
+            for form, row, flag, info in (
+                    ('next', rows[-1], 'next', 'ninfo'),
+                    ('previous', rows[0], 'prev', 'pinfo')):
+                res.evals += 1
+                want = list(row[info]) if row[flag] and row[info] else None
+                got = render_form(form, L, cur, size, orphan, overlap)
+                if got != want:
+                    res.violate('nav', 'nav:%s-form' % form,
+                                {'window': [s, e], 'form_announces': got,
+                                 'listing_announces': want}, case)
+                    return res
             if prev_win is not None:
                 shared = prev_win[1] - s + 1
                 if shared != overlap:
